@@ -20,6 +20,10 @@ type FactSet map[ssa.Value]bool
 type FuncFacts struct {
 	Fn *ssa.Function
 	In map[*ssa.BasicBlock]FactSet
+	// via: facts imported through a resolved phi (closePhiFacts) stay meaningful wherever the phi's block
+	// dominates — the path is known to have come through the predecessor in which they held — even
+	// though the block that computed the condition does not dominate
+	via map[ssa.Value][]*ssa.BasicBlock
 }
 
 var factsCache = map[*ssa.Function]*FuncFacts{}
@@ -28,7 +32,7 @@ func FactsOf(fn *ssa.Function) *FuncFacts {
 	if ff, ok := factsCache[fn]; ok {
 		return ff
 	}
-	ff := &FuncFacts{Fn: fn, In: map[*ssa.BasicBlock]FactSet{}}
+	ff := &FuncFacts{Fn: fn, In: map[*ssa.BasicBlock]FactSet{}, via: map[ssa.Value][]*ssa.BasicBlock{}}
 	factsCache[fn] = ff
 	if len(fn.Blocks) == 0 {
 		return ff
@@ -72,7 +76,7 @@ func FactsOf(fn *ssa.Function) *FuncFacts {
 					if ins, ok := c.(ssa.Instruction); ok {
 						db := ins.Block()
 						if db == b || !db.Dominates(b) {
-							if !pureOverDominating(c, b) {
+							if !pureOverDominating(c, b) && !ff.viaDominates(c, b) {
 								delete(in, c)
 							}
 						}
@@ -149,6 +153,41 @@ func closePhiFacts(ff *FuncFacts, in FactSet) {
 	for round := 0; round < 4; round++ {
 		added := false
 		for c, pol := range in {
+			// nil-ness of a pointer/interface phi: `phi == nil` / `phi != nil` known excludes the edges whose
+			// incoming value is known to be of the other kind; a single remaining edge was the one taken
+			if bo, isB := c.(*ssa.BinOp); isB && (bo.Op == token.EQL || bo.Op == token.NEQ) {
+				var pv *ssa.Phi
+				if p, ok := bo.X.(*ssa.Phi); ok && isNilConst(bo.Y) {
+					pv = p
+				} else if p, ok := bo.Y.(*ssa.Phi); ok && isNilConst(bo.X) {
+					pv = p
+				}
+				if pv != nil {
+					wantNil := (bo.Op == token.EQL) == pol
+					possible, n := -1, 0
+					for i, e := range pv.Edges {
+						known, isNil := nilnessOf(e)
+						if known && isNil != wantNil {
+							continue
+						}
+						possible = i
+						n++
+					}
+					if n == 1 {
+						pred := pv.Block().Preds[possible]
+						if pin, ok := ff.In[pred]; ok {
+							for k, v := range edgeFacts(pin, pred, pv.Block()) {
+								if _, have := in[k]; !have {
+									in[k] = v
+									added = true
+									ff.addVia(k, pv.Block())
+								}
+							}
+						}
+					}
+				}
+				continue
+			}
 			ph, ok := c.(*ssa.Phi)
 			if !ok || !isBool(ph.Type()) {
 				continue
@@ -178,6 +217,7 @@ func closePhiFacts(ff *FuncFacts, in FactSet) {
 					if _, have := in[k]; !have {
 						in[k] = v
 						added = true
+						ff.addVia(k, ph.Block())
 					}
 				}
 			}
@@ -541,3 +581,34 @@ func mustPassBefore(fn *ssa.Function, to ssa.Instruction, through func(ssa.Instr
 
 // isReturn reports whether ins is a Return.
 func isReturn(ins ssa.Instruction) bool { _, ok := ins.(*ssa.Return); return ok }
+
+// nilnessOf: is v syntactically known to be nil / non-nil?
+func nilnessOf(v ssa.Value) (known bool, isNil bool) {
+	v = stripConv(v)
+	if isNilConst(v) {
+		return true, true
+	}
+	switch v.(type) {
+	case *ssa.Alloc, *ssa.MakeClosure, *ssa.Function, *ssa.Global, *ssa.MakeMap, *ssa.MakeChan, *ssa.MakeSlice, *ssa.FieldAddr, *ssa.IndexAddr:
+		return true, false
+	}
+	return false, false
+}
+
+func (ff *FuncFacts) addVia(k ssa.Value, b *ssa.BasicBlock) {
+	for _, x := range ff.via[k] {
+		if x == b {
+			return
+		}
+	}
+	ff.via[k] = append(ff.via[k], b)
+}
+
+func (ff *FuncFacts) viaDominates(k ssa.Value, b *ssa.BasicBlock) bool {
+	for _, x := range ff.via[k] {
+		if x != b && x.Dominates(b) {
+			return true
+		}
+	}
+	return false
+}
